@@ -5,7 +5,7 @@ import numpy as np
 
 RULE = ("K: ClosestIndex.__call__ (public, fdtdx.ClosestIndex, built with init_module as a Device does) on generated "
         "(material set, branch, shape, values): 2-5 materials; permittivity kinds isotropic / diagonal / full tensor, with "
-        "repeated permittivities (ties, ordering by permeability) in a fraction of the sets; branches round (default) and "
+        "repeated permittivities (ties, ordering by permeability) in a fraction of the sets, partially degenerate diagonals and six forced sets whose anisotropic members are all uniaxial (seed C19h); branches round (default) and "
         "inv (mapping_from_inverse_permittivities); shapes of rank 0-4 with a singleton axis in every position and with the "
         "last axis equal / unequal to the number of materials; values: exact half-integers, integers, out-of-range, "
         "negative, huge, -0.0, exact table entries, exact mid-points between table entries, random. Index arrays and "
